@@ -8,9 +8,11 @@ abbrev Orig := Nat → Content
 /-- Every transaction has its receipt. -/
 def WFOrig (orig : Orig) : Prop := ∀ b, (orig b).1.length = (orig b).2.length
 
-/-- Block still in the previous layout (for an empty block: nothing stored at all). -/
+/-- Block whose old entries are intact (for an empty block: nothing stored in the old buckets). The
+new entry is absent, or — after a partial batch written when a later block of the range failed to
+ingest — already present with the same content. -/
 def Unmigrated (o : Content) (k : Blk) : Prop :=
-  k.hdr = some o.1.length ∧ k.otx = o.1 ∧ k.orc = o.2 ∧ k.blob = none
+  k.hdr = some o.1.length ∧ k.otx = o.1 ∧ k.orc = o.2 ∧ (k.blob = none ∨ k.blob = some o)
 
 /-- Block in the current layout with exactly its original content, no old entries left. -/
 def Migrated (o : Content) (k : Blk) : Prop :=
@@ -26,12 +28,16 @@ theorem ingest_unmigrated (cfg : Cfg) (o : Content) (k : Blk) (hw : o.1.length =
   refine ⟨⟨some o.1.length, [], [], some o⟩, ?_, rfl, rfl, rfl, rfl⟩
   unfold ingestBlk
   rw [h1]
-  simp only [h2, h3, h4]
+  simp only [h2, h3]
   cases ho : o.1 with
   | nil =>
     have : o.2 = [] := by rw [ho] at hw; exact List.length_eq_zero_iff.mp hw.symm
-    simp [ho, this]
-    rw [Prod.ext_iff]; simp [ho, this]
+    have ho' : o = ([], []) := Prod.ext ho this
+    rcases h4 with h4 | h4
+    · simp [ho, this, h4]
+      rw [Prod.ext_iff]; simp [ho, this]
+    · rw [h4, ho']
+      cases cfg.overwriteMigrated <;> simp
   | cons a r =>
     cases ho2 : o.2 with
     | nil => rw [ho, ho2] at hw; simp at hw
@@ -177,10 +183,13 @@ theorem backfill_inv {orig : Orig} {h : Nat} {db : Db} (hw : WFOrig orig) (hi : 
     simp only [hb, true_and]
     rcases hi.2 b hb with hu | hm
     · have he := hempty b hb hu
-      simp only [hu.2.2.2, Option.isNone_none, if_true]
-      refine ⟨by rw [he.2, he.1]; rfl, ?_, ?_, by rw [he.1]⟩
-      · have := hu.2.1; rw [he.1] at this; exact this
-      · have := hu.2.2.1; rw [he.1] at this; exact this
+      have hotx : (db.blk b).otx = [] := by have := hu.2.1; rw [he.1] at this; exact this
+      have horc : (db.blk b).orc = [] := by have := hu.2.2.1; rw [he.1] at this; exact this
+      rcases hu.2.2.2 with hb0 | hb0
+      · simp only [hb0, Option.isNone_none, if_true]
+        exact ⟨by rw [he.2, he.1]; rfl, hotx, horc, by rw [he.1]⟩
+      · simp only [hb0, Option.isNone_some, Bool.false_eq_true, if_false]
+        exact ⟨by rw [he.2, he.1]; rfl, hotx, horc, hb0⟩
     · simp only [hm.2.2.2, Option.isNone_some, Bool.false_eq_true, if_false]; exact hm
   · intro b hb
     have : ¬ b ≤ h := by omega
@@ -202,6 +211,54 @@ theorem backfill_frame {db db' : Db} {h : Nat} (hb : backfill db h = .ok db') (b
     subst hb
     have : ¬ b ≤ h := by omega
     simp [this]
+
+/-- The partial batch written after an ingest error only ADDS new entries: the old transaction and
+receipt entries of every block — in particular of the blocks of the range that were not reached —
+are exactly what they were. -/
+theorem applyPartial_keeps_old (cfg : Cfg) (db : Db) (f h r k b : Nat) :
+    ((applyPartial cfg db f h r k).blk b).otx = (db.blk b).otx ∧
+    ((applyPartial cfg db f h r k).blk b).orc = (db.blk b).orc ∧
+    ((applyPartial cfg db f h r k).blk b).hdr = (db.blk b).hdr := by
+  simp only [applyPartial]
+  split
+  · split <;> exact ⟨rfl, rfl, rfl⟩
+  · exact ⟨rfl, rfl, rfl⟩
+
+theorem applyPartial_inv {cfg : Cfg} (hc : cfg.overwriteMigrated = false) {orig : Orig} {h : Nat} {db : Db}
+    (hw : WFOrig orig) (hi : Inv orig h db) (f r k : Nat) :
+    Inv orig h (applyPartial cfg db f h r k) ∧
+    (∀ b, h < b → (applyPartial cfg db f h r k).blk b = db.blk b) := by
+  refine ⟨⟨hi.1, ?_⟩, ?_⟩
+  · intro b hb
+    simp only [applyPartial]
+    split
+    · obtain ⟨k', hk, hm⟩ := ingest_ok_fixed hc (hw b) (hi.2 b hb)
+      rw [hk]
+      simp only []
+      rcases hi.2 b hb with hu | hmig
+      · exact .inl ⟨hu.1, hu.2.1, hu.2.2.1, .inr hm.2.2.2⟩
+      · have : k' = db.blk b := by
+          have := ingest_migrated_fixed cfg hc _ _ hmig
+          rw [this] at hk; injection hk with hk; exact hk.symm
+        rw [this]; exact .inr hmig
+    · exact hi.2 b hb
+  · intro b hb
+    have : ¬ (f + r * batchSize ≤ b ∧ b < f + r * batchSize + k ∧ b < f + (r + 1) * batchSize ∧ b ≤ h) := by omega
+    simp [applyPartial, this]
+
+theorem partials_inv {cfg : Cfg} (hc : cfg.overwriteMigrated = false) {orig : Orig} {h : Nat}
+    (hw : WFOrig orig) (f : Nat) : ∀ (partials : List (Nat × Nat)) (db : Db), Inv orig h db →
+    Inv orig h (partials.foldl (fun d p => applyPartial cfg d f h p.1 p.2) db) ∧
+    (∀ b, h < b → (partials.foldl (fun d p => applyPartial cfg d f h p.1 p.2) db).blk b = db.blk b) := by
+  intro partials
+  induction partials with
+  | nil => intro db hi; exact ⟨hi, fun _ _ => rfl⟩
+  | cons p rest ih =>
+    intro db hi
+    simp only [List.foldl]
+    have h1 := applyPartial_inv (cfg := cfg) hc hw hi f p.1 p.2
+    have h2 := ih _ h1.1
+    exact ⟨h2.1, fun b hb => by rw [h2.2 b hb, h1.2 b hb]⟩
 
 /-- One loop iteration of the repaired migration keeps `Inv`, whatever the environment does. -/
 theorem iteration_inv {cfg : Cfg} (hc : cfg.overwriteMigrated = false) {orig : Orig} {h : Nat} {db : Db}
@@ -239,6 +296,21 @@ theorem iteration_inv {cfg : Cfg} (hc : cfg.overwriteMigrated = false) {orig : O
     cases hf : firstBlock db h (fun k => !k.otx.isEmpty) with
     | none => exact ⟨hi, fun _ _ => rfl⟩
     | some t => exact ⟨applyPass_inv hc hw hi _ _, by intro b hb; simp only [Option.map_some]; exact applyPass_frame _ _ _ _ _ b hb⟩
+  | ingestError emit sel partials =>
+    simp only [getFirst_inv hw hi]
+    cases hf : firstBlock db h (fun k => !k.otx.isEmpty) with
+    | none => exact ⟨hi, fun _ _ => rfl⟩
+    | some t =>
+      simp only [Option.map_some]
+      have h1 := applyPass_inv (cfg := cfg) hc hw hi (t - t % batchSize)
+        (fun i => decide (i < min (emit.getD (numRanges (t - t % batchSize) h)) (numRanges (t - t % batchSize) h)) &&
+          !(partials.any (fun p => p.1 == i)) && selOf sel i)
+      have hf1 : ∀ b, h < b → (applyPass cfg db (t - t % batchSize) h
+          (fun i => decide (i < min (emit.getD (numRanges (t - t % batchSize) h)) (numRanges (t - t % batchSize) h)) &&
+            !(partials.any (fun p => p.1 == i)) && selOf sel i)).blk b = db.blk b :=
+        fun b hb => applyPass_frame _ _ _ _ _ b hb
+      exact partials_inv hc hw (t - t % batchSize) partials _ h1 |>.imp_right
+        (fun hfr b hb => by rw [hfr b hb]; exact hf1 b hb)
   | writeFail emit sel =>
     simp only [getFirst_inv hw hi]
     cases hf : firstBlock db h (fun k => !k.otx.isEmpty) with
@@ -310,6 +382,9 @@ theorem iteration_done {cfg : Cfg} (hc : cfg.overwriteMigrated = false) (hs : cf
       simp only [hf, Option.map_some, passFails_fixed hc hw hi, Bool.false_eq_true, if_false] at hd
       split at hd <;> simp at hd
   | crash emit sel =>
+    simp only [getFirst_inv hw hi] at hd
+    cases hf : firstBlock db h (fun k => !k.otx.isEmpty) <;> simp [hf] at hd
+  | ingestError emit sel partials =>
     simp only [getFirst_inv hw hi] at hd
     cases hf : firstBlock db h (fun k => !k.otx.isEmpty) <;> simp [hf] at hd
   | writeFail emit sel =>
@@ -527,6 +602,7 @@ theorem iteration_pinv {cfg : Cfg} (hs : cfg.skipUnstoredEmpty = true) {orig : O
   | cancelHead => exact ⟨⟨p, hp⟩, by simp⟩
   | crash _ _ => cases hg
   | writeFail _ _ => cases hg
+  | ingestError _ _ _ => cases hg
   | crashFinal => cases hg
   | pass emit =>
     simp only [getFirst_inv hw hi]
@@ -717,6 +793,9 @@ theorem iteration_done_any {cfg : Cfg} (hc : cfg.overwriteMigrated = false)
         simp only [hf, Option.map_some, passFails_fixed hc hw hi, Bool.false_eq_true, if_false] at hd
         split at hd <;> simp at hd
     | crash emit sel =>
+      simp only [getFirst_inv hw hi] at hd
+      cases hf : firstBlock db h (fun k => !k.otx.isEmpty) <;> simp [hf] at hd
+    | ingestError emit sel partials =>
       simp only [getFirst_inv hw hi] at hd
       cases hf : firstBlock db h (fun k => !k.otx.isEmpty) <;> simp [hf] at hd
     | writeFail emit sel =>
